@@ -3,8 +3,11 @@
    annotated is typed in the run-time judgement of spec/RtTyping.v — for every type agreement `teq`
    that contains the answers of EqualType on good types, is an equivalence, and relates a good type
    to its unfolding.  Premises on the SOURCE program: prog_syn_ok (spec/SynOk.v, the premise of C07's
-   bisimilarity instance) and rt_syn_ok (proofs/RtTcSyn.v, names as the parser + expansion leave
-   them); both are evaluated per program by the check modules. *)
+   bisimilarity instance) and raw_ok (proofs/RtTcSyn.v, names as the parser + expansion leave
+   them); both are THEOREMS for parsed programs (proofs/ParseSynOk.v, proofs/ParseRaw.v).
+   What the judgement needs beyond raw_ok is derived from acceptance: parameters are not the keyword
+   self and the explicit provider is not a parameter (such a context entry could not be consumed:
+   RtTcSound.stuck_all), no provider name of a process is the keyword self (guard providers_not_self, F31). *)
 From stdpp Require Import gmap strings.
 Require Import Grits.Base Grits.ModeDefs Grits.Modes Grits.STypes Grits.Forms Grits.Subst Grits.Infer
                Grits.TcDeps Grits.Expand Grits.Tc Grits.TcTop Grits.EqualWF Grits.spec.SynOk Grits.spec.Typing
@@ -112,13 +115,25 @@ Lemma elab_names_bd D ns ns' : Forall2 (elab_name D) ns ns' -> forallb bd_ok ns'
 Proof.
   induction 1 as [|n n' r r' [t [t' [_ [_ ->]]]] _ IH]; simpl; auto. rewrite IH. reflexivity.
 Qed.
-Lemma elab_fun_rtsyn D f f' : elab_fun D f f' -> fun_syn_ok f = true -> fun_syn_ok f' = true.
+Lemma elab_fun_rtsyn D f f' : elab_fun D f f' -> fun_raw f = true -> fun_raw f' = true.
 Proof.
-  intros [t [t' [ps' [_ [_ [EN ->]]]]]] H. unfold fun_syn_ok, fun_rs in *. simpl.
-  rewrite (elab_names_bd _ _ _ EN), (elab_names_idents _ _ _ EN). exact H.
+  intros [t [t' [ps' [_ [_ [EN ->]]]]]] H. unfold fun_raw, fun_rs in *. simpl.
+  rewrite (elab_names_bd _ _ _ EN). exact H.
 Qed.
-Lemma elab_proc_rtsyn D q q' : elab_proc D q q' -> proc_syn_ok q = true -> proc_syn_ok q' = true.
+Lemma elab_proc_rtsyn D q q' : elab_proc D q q' -> proc_raw q = true -> proc_raw q' = true.
 Proof. intros [t [t' [_ [_ ->]]]] H. exact H. Qed.
+
+(* every parameter is a key of the context of the body *)
+Lemma make_ctx_has ns n : In n ns -> ctx_has (make_ctx ns) (ident n) = true.
+Proof.
+  unfold make_ctx. assert (G : forall l acc, (In n l \/ ctx_has acc (ident n) = true) ->
+    ctx_has (fold_left (fun g m => aset (ident m) (nty m) g) l acc) (ident n) = true).
+  { induction l as [|m r IH]; simpl; intros acc H.
+    - destruct H as [[]|H]; exact H.
+    - apply IH. destruct H as [[->|H]|H]; [right|left; exact H|right; apply keep_aset; exact H].
+      unfold ctx_has. apply amem_true. rewrite alookup_aset, String.eqb_refl. eauto. }
+  intros H. apply G. auto.
+Qed.
 
 Lemma forallb_Forall2 {A} (P : A -> bool) (R : A -> A -> Prop) l l' :
   (forall a b, R a b -> P a = true -> P b = true) -> Forall2 R l l' -> forallb P l = true -> Forall (fun b => P b = true) l'.
@@ -174,38 +189,46 @@ Proof.
 Qed.
 
 Lemma fun_static f f' :
-  fun_sig_ok D f -> fun_syn f = true -> fun_syn_ok f = true -> fun_rel D Sg f f' -> fun_ok D F (teq D) f'.
+  fun_sig_ok D f -> fun_syn f = true -> fun_raw f = true -> fun_rel D Sg f f' -> fun_ok D F (teq D) f'.
 Proof.
   intros [ND [TP [t [Ft [Wt _]]]]] SF RS [En [Ep [Et [Ee Eb]]]].
   unfold fun_syn in SF. apply andb_true_iff in SF. destruct SF as [SF Sb]. apply andb_true_iff in SF. destruct SF as [St Sp].
-  unfold fun_syn_ok in RS. apply andb_true_iff in RS. destruct RS as [RS Rb]. apply andb_true_iff in RS. destruct RS as [Rp Re].
+  unfold fun_raw in RS. apply andb_true_iff in RS. destruct RS as [RS Rb]. apply andb_true_iff in RS. destruct RS as [Rp Re].
   rewrite Ft in St, Eb. simpl in St.
   assert (Gt : good D t) by (split; auto).
   pose proof (names_good _ TP Sp) as Gps.
   assert (FS : Forall (fun p => is_Some (nty p)) (fn_params f)).
   { eapply Forall_impl; [|exact TP]. intros a [ta [Na _]]. exists ta. exact Na. }
+  pose proof (ctx_of_names_good _ _ Gps : gctx D (make_ctx (fn_params f))) as Gg.
   assert (HT' : typed D F (teq D) ∅ (params_ctx (fn_params f)) None (fun_rs f) t (fn_body f')).
   { apply (tc_form_rt teq D Sg F HD (Heq D SD SE) (Hrefl D) (Hsym D) (Htrans D) (Hunf D SD SE) HSg HSgw HF
                       (make_ctx (fn_params f)) None t (fn_body f) (fn_body f') (params_ctx (fn_params f)) (fun_rs f));
       auto.
-    - apply (ctx_of_names_good _ _ Gps).
     - intros s E. discriminate E.
     - intros x t0 L. unfold make_ctx in L. apply alookup_fold_aset in L.
       destruct L as [[p [Hp [Hi Hn]]]|L]; [|discriminate L].
       exists t0. split; [|apply Hrefl]. rewrite <- Hi. apply params_ctx_lookup; auto. }
   exists t. rewrite Et, Ep, Ee. split; [exact Ft|]. split.
-  { apply Forall_forall. intros p Hp. rewrite forallb_forall in Rp. apply bd_ok_binder. auto. }
+  { (* a parameter is not the keyword self: the entry "" could not be consumed *)
+    apply Forall_forall. intros p Hp. rewrite forallb_forall in Rp. apply bd_ok_binder; auto.
+    destruct (is_self p) eqn:S; auto. exfalso.
+    pose proof (bd_ok_self _ (Rp _ Hp) S) as E.
+    pose proof (no_empty_key D Sg HD HSg HSgw _ _ _ _ _ _ Gg Gt Rb Sb Eb) as K.
+    rewrite <- E, (make_ctx_has _ _ Hp) in K. discriminate K. }
   split; [exact ND|]. split; [exact FS|].
   unfold fun_rs in HT'. destruct (fn_explicit f) as [ep|] eqn:Eep; [|exact HT'].
   apply andb_true_iff in Re. destruct Re as [Rc Rn].
   split; [destruct (chan ep); [discriminate Rc|reflexivity]|]. split; [|exact HT'].
-  apply negb_true_iff, str_mem_false in Rn. rewrite elem_of_list_In. exact Rn.
+  (* the explicit provider is not a parameter: the body cannot name that entry *)
+  rewrite elem_of_list_In. intros Hin. apply in_map_iff in Hin. destruct Hin as [p [Hid Hp]].
+  eapply (proj1 (stuck_all D Sg HD HSg HSgw (ident ep)) (fn_body f)); eauto.
+  rewrite <- Hid. apply make_ctx_has; auto.
 Qed.
 End Decls.
 
 (* ------------------------------------------------------------------ programs *)
 Theorem tc_program_static p p' :
-  tc_program p = TOk p' -> prog_syn_ok p = true -> rt_syn_ok p = true -> p_assumed p' = [] ->
+  tc_program p = TOk p' -> prog_syn_ok p = true -> raw_ok p = true -> p_assumed p' = [] ->
   static_typed (teq (p_types p')) p'.
 Proof.
   unfold tc_program. intros H PS RS NA.
@@ -224,7 +247,7 @@ Proof.
   unfold prog_syn_ok in PSe. simpl in PSe. rewrite andb_true_r in PSe.
   apply andb_true_iff in PSe. destruct PSe as [PSe SP]. apply andb_true_iff in PSe. destruct PSe as [SE SF].
   pose proof (genv_intro _ SD SE) as HD.
-  unfold rt_syn_ok in RS. apply andb_true_iff in RS. destruct RS as [RF RP].
+  unfold raw_ok in RS. apply andb_true_iff in RS. destruct RS as [RF RP].
   pose proof (forallb_Forall2 _ _ _ _ (elab_fun_rtsyn D) EF RF) as RF'.
   pose proof (forallb_Forall2 _ _ _ _ (elab_proc_rtsyn D) EP RP) as RP'.
   pose proof (tc_funs_rel _ _ _ _ E2) as FR. pose proof (tc_procs_rel _ _ _ _ _ _ E3) as PR.
@@ -270,12 +293,12 @@ Proof.
   - (* processes *)
     apply Forall_forall. intros q' Hq'.
     destruct (Forall2_In_r _ _ _ _ PR Hq') as [q [Hq [Eq [Et Eb]]]].
-    destruct PP as [PSig _ _ _ _ _ _ _ _]. rewrite Forall_forall in PSig.
+    pose proof (pp_named _ _ _ PP) as PNm. destruct PP as [PSig _ _ _ _ _ _ _ _ _]. rewrite Forall_forall in PSig.
     destruct (PSig _ Hq) as [t [Pt [Wt _]]].
     pose proof (SP _ Hq) as Sq. unfold proc_syn in Sq.
     apply andb_true_iff in Sq. destruct Sq as [Sq Sb]. apply andb_true_iff in Sq. destruct Sq as [St _].
     rewrite Pt in St, Eb. simpl in St.
-    pose proof (RP' _ Hq) as Rq. unfold proc_syn_ok in Rq.
+    pose proof (RP' _ Hq) as Rq. unfold proc_raw in Rq.
     apply andb_true_iff in Rq. destruct Rq as [Rq Rb]. apply andb_true_iff in Rq. destruct Rq as [Rne Rbd].
     assert (Gt : good D t) by (split; auto).
     assert (Gall : Forall (fun kv => gname D (snd kv)) (top_names ps [])).
@@ -287,7 +310,12 @@ Proof.
     pose proof (proc_ctx_good D HD ps [] q Gall) as Gg.
     exists t, (ctx_map (make_ctx (free_name_types q ps []))).
     split; [congruence|]. rewrite Eq. split; [destruct (pr_providers q); [discriminate Rne|discriminate]|].
-    split; [apply Forall_forall; intros n Hn; rewrite forallb_forall in Rbd; apply bd_ok_binder; auto|].
+    split.
+    { (* a provider name is not the keyword self: guard providers_not_self (F31) *)
+      apply Forall_forall. intros n Hn. rewrite forallb_forall in Rbd. specialize (Rbd _ Hn).
+      unfold pv_ok in Rbd. unfold binder. destruct (chan n); [discriminate Rbd|]. split; auto.
+      intros Ei. apply (PNm q n Hq Hn). split; auto.
+      destruct (is_self n); auto. simpl in Rbd. rewrite Ei in Rbd. discriminate Rbd. }
     split.
     + (* the context mentions providers of processes only, at the type of their process *)
       intros x A HA. apply ctx_map_lookup in HA. unfold make_ctx in HA. apply alookup_fold_aset in HA.
@@ -304,7 +332,7 @@ Proof.
 Qed.
 
 Theorem tc_annotations_typed_thm p p' :
-  typecheck p = Accept p' -> prog_syn_ok p = true -> rt_syn_ok p = true -> p_assumed p' = [] ->
+  typecheck p = Accept p' -> prog_syn_ok p = true -> raw_ok p = true -> p_assumed p' = [] ->
   static_typed (teq (p_types p')) p'.
 Proof.
   unfold typecheck. destruct (tc_program p) eqn:E; try discriminate. intros H. injection H as <-.
